@@ -101,7 +101,8 @@ CHECKS.update({
               "recorded answer equals the one the transcribed algorithm produces and the filter has several match values. Answers during which "
               "the storage engine fails transiently (SQL: the fetch that follows k delivered rows raises 'database is locked') are judged by "
               "Query!FaultedVerdict: cut short perhaps, never more than the limit (C12_AtMostLimit, a plain count), never an event twice, and "
-              "what was sent is a newest-first prefix. REQs through the connection handler as under C02."),
+              "what was sent is a newest-first prefix. REQs through the connection handler as under C02. Limits are also written as 4.0, 1e1, "
+              "\"4\", 1e9 and judged as the integer they denote."),
         technique="TLA+ Query.tla (LimitOK) evaluated by TLC on recorded answers with max_limit=3 on both backends; TLA+ KvScan.tla (transcribed LMDB planner/scanner/limit) model-checked by TLC and trace-validated against the real scanner"),
 })
 
@@ -143,11 +144,11 @@ CHECKS["C06"]["technique"] += "; plus Relay.tla trace validation of the OK frame
 CHECKS["C18"] = dict(
     cat="model_checking", ref="DESIGN.md §5 C18",
     note=("Trusted: TLC. The clock is injected (RateLimiter._timestamp), so time is exact; the deque state is read from "
-          "recent_commands. Bounds: 3 addresses, 2 commands, clock steps {0,1,30,61} s, five rule sets (global+ip+specific+exempt; ip only; global+specific; a longer window with a smaller allowance; exemptions beside limiting rules of one command), arrival sequences "
+          "recent_commands. Bounds: 3 addresses, 2 commands, clock steps {0,1,30,61} s, seven rule sets (global+ip+specific+exempt; ip only; global+specific; a longer window with a smaller allowance; exemptions beside limiting rules of one command; IPv6 clients; a specific address whose own window is longer than any per-IP one), arrival sequences "
           "exhaustive to depth 3 (quick) / 4 (thorough) plus seeded long runs of 120-300 arrivals."),
     text=("RateLimiter.tla contains a step-for-step transcription of is_limited / evaluate_rules / cleanup and, separately, the "
           "contract of C18 over the history of decisions (window bound, no over-blocking, specific rule overrides, n=-1 exempts, "
-          "bounded state). TLC checks transcription => contract exhaustively (MC_RateLimiter, five rule sets), enumerates every "
+          "bounded state). TLC checks transcription => contract exhaustively (MC_RateLimiter, six rule sets; the IPv6 one is validated at trace level), enumerates every "
           "arrival sequence to a depth, and validates the run of the real class on each of them (decision and complete deque state "
           "after every call) against the transcription while evaluating the contract on every decision. At handler level, Relay.tla's "
           "Limited / RefuseOk actions say what a limited message may do (answered as refused, no other effect); relay schedules run with "
@@ -166,7 +167,10 @@ CHECKS["C20"] = dict(
           "in-memory streams (symbol-aligned and with byte jitter); the look-ups and pushes of every worker are judged by TLC "
           "against the C20 formulas (Notifier_Trace.tla). Workers may drop and (re)connect (Join): whoever is connected in the end must "
           "have looked up everything announced while it was connected (C20_StayersServed). An end-to-end variant joins two real DBStorage instances on one SQLite "
-          "file by the real server and client classes: the receiving worker's subscribers must be pushed each announced event."),
+          "file by the real server and client classes: the receiving worker's subscribers must be pushed each announced event - also with "
+          "bytes delivered as soon as they are written while COMMITs are slow, and for an event that is removed and accepted again (a second "
+          "announcement). The start-up window of a worker runs over real loopback TCP (the repository's NotifyServer on its port and the "
+          "workers' own NotifyClient objects): a worker accepts an event before its delayed notifier connect."),
     technique="TLA+ Notifier.tla model-checked by TLC over all chunkings; TLC-simulated chunkings replayed on the real notifier classes; look-ups validated by TLC")
 
 CHECKS["C03"] = dict(
@@ -281,7 +285,9 @@ CHECKS["C19"] = dict(
           "the observations (Junk_Trace.tla). The grammar also contains well-formed commands pipelined in a hostile order (a subscription id "
           "re-used while its query runs, CLOSE / re-REQ bursts, duplicates) and peers that stop reading while answers pile up for them and "
           "then hang up (answers queued by the handler, by query tasks, by notify tasks), and bursts: the same hostile, correctly signed event 6-12 "
-          "times and runs of different ones before the probes (what one such event costs must not add up)."),
+          "times and runs of different ones before the probes (what one such event costs must not add up), odd subscription ids (the empty "
+          "string, \"0\", a blank, 300 characters), and a subscription closed or replaced a dozen times while its stored query is held in the "
+          "middle of its work (what a cancelled query holds must be given back)."),
     technique="TLA+ Junk.tla contract evaluated by TLC on recorded handler runs over a grammar of typed frame mutations; differential run for the second connection")
 
 CHECKS["C11"] = dict(
